@@ -49,6 +49,26 @@ impl Rng {
     }
 }
 
+/// Which cases ship the facts the Lean model can *compute* itself (`f64::from_str` via Model/DecFloat.lean,
+/// chrono's `%Y-%m-%d %H:%M:%S` parse via `Lit.parseTimestampLit`, the JSON document of a line via Model/JsonDoc.lean)?
+/// Every second one, counted per kind of fact (`site`; generation is deterministic, and a case line carries the facts
+/// it was given, so a replay is the line itself): where the facts are shipped the driver cross-checks them against
+/// the computed answer (`fact-mismatch`), where they are not the model runs on the computed answer alone — both
+/// paths are exercised in every run. Sites with an odd number alternate in pairs, so that the kinds of fact of one
+/// end-to-end case are not all shipped or all withheld together.
+pub const SITE_NUMBERS: usize = 0;      // tokenizer number table
+pub const SITE_EVAL: usize = 1;         // evaluator fparse / tsparse
+pub const SITE_EXTRACT_F64: usize = 2;  // extraction f64
+pub const SITE_EXTRACT_DOC: usize = 3;  // the line's JSON document (extract cases)
+pub const SITE_E2E_F64: usize = 4;
+pub const SITE_E2E_DOC: usize = 5;
+pub fn ship_facts(site: usize) -> bool {
+    use std::sync::atomic::{AtomicU64, Ordering};
+    static COUNTERS: [AtomicU64; 6] = [AtomicU64::new(0), AtomicU64::new(0), AtomicU64::new(0), AtomicU64::new(0), AtomicU64::new(0), AtomicU64::new(0)];
+    let n = COUNTERS[site].fetch_add(1, Ordering::Relaxed);
+    if site % 2 == 1 { (n / 2) % 2 == 0 } else { n % 2 == 0 }
+}
+
 pub fn hex(bytes: &[u8]) -> String {
     let mut s = String::with_capacity(bytes.len() * 2 + 1);
     s.push('x');
